@@ -33,8 +33,22 @@ pub fn subject_panic_probe(err: &str) -> Option<&str> {
     err.strip_prefix(SUBJECT_PANIC)
 }
 
+/// Set by the `derive-probe` subcommand: every probe is announced on stdout before it is lexed,
+/// so that the driver can name the probe on which the lexer hangs.
+pub static TRACE_PROBES: std::sync::atomic::AtomicBool = std::sync::atomic::AtomicBool::new(false);
+
+/// The probe on which a previous derivation (in a watched subprocess) crashed or hung, passed
+/// on by the driver to itself and to its workers.
+pub const WITNESS_ENV: &str = "VERIF_DERIVE_WITNESS";
+
 /// All tokens of `text` and whether lexing reported no error; a panic of the lexer is an `Err`.
 fn lex_all(text: &str) -> Result<(Vec<(SyntaxKind, String)>, bool), String> {
+    if TRACE_PROBES.load(std::sync::atomic::Ordering::Relaxed) {
+        use std::io::Write;
+        let mut o = std::io::stdout();
+        let _ = writeln!(o, "PROBE {}", serde_json::json!(text));
+        let _ = o.flush();
+    }
     crate::core::catch(|| {
         let lexed = LexedStr::new(text);
         let toks = (0..lexed.len()).map(|i| (lexed.kind(i), lexed.text(i).to_string())).collect();
@@ -62,6 +76,10 @@ pub struct TokAlphabet {
 /// Derive Sigma-tok.  `with_var` adds Sigma-var (lexemes sharing a kind but driving
 /// text-dependent code, and lexemes with lexical errors).
 pub fn derive(with_var: bool) -> Result<TokAlphabet, String> {
+    if let Ok(w) = std::env::var(WITNESS_ENV) {
+        // a watched derivation already died on this probe: do not run into it again
+        return Err(format!("{}{}", SUBJECT_PANIC, w));
+    }
     let mut lexemes: Vec<Lexeme> = Vec::new();
     let mut unproducible = Vec::new();
     let last = SyntaxKind::__LAST as u16;
